@@ -238,6 +238,7 @@ class Ctx:
         self.defined = []
         self.defined_ids = set()
         self.pos = 0
+        self.lib_preconditions = []
         o = getattr(self, "oracle", None)
         if o is not None:       # per-path oracle state: names of fresh unknowns must not depend on the path number
             o.update(candidates=[], calls=0, fresh=0, log=[])
